@@ -14,7 +14,7 @@ LEVEL = "exploration"
 RULE = (
     "a case = (pattern, replacement, source, count): 13 patterns with >= 1 wildcard (expression, statement and "
     "statement-sequence patterns) x replacements using each wildcard 0 / 1 / 2 times, the identity replacement, a "
-    "reordering and a multi-line statement replacement x 37 sources (no / one / two adjacent / nested / same-line / "
+    "reordering and a multi-line statement replacement x 44 sources (no / one / two adjacent / nested / same-line / "
     "indented / multi-line parenthesised / ignore-commented / non-ASCII occurrences, inside comprehensions, methods and "
     "else branches) x count in {0, 1, 2} through sub() and subn(). oracle: no occurrence (independent reference "
     "finder) => byte-identical; otherwise the output parses and its tree is the source tree with some non-overlapping "
@@ -53,6 +53,9 @@ SOURCES = [
     "y = f(  a  )   # odd spacing\n", "for i in xs:\n    f(i)\nelse:\n    f(0)\n", "y = f(a) if f(b) else f(c)\n",
     "def o():\n    if c:\n        return a + b\n    return f(a)\n", "y = f(\n    a,\n)\n", "z = f(a)  # pyrefact: ignore\nz = f(b)\n",
     "y = [i + 1 for i in xs]\nw = [j for j in [k for k in ys]]\n",
+    "f(a)\nf(b)\nf(c)  # pyrefact: ignore\n", "f(a)\nf(b)  # pyrefact: ignore", "z = f(a)\nif c:\n    z = f(b)  # pyrefact: ignore\n",
+    "y = (\n    f(a)\n    + f(b)  # pyrefact: ignore\n)\n", "f(a); x = '\x0c'  # pyrefact: ignore\nf(b)\n", "x = '\u2028'; f(a)  # pyrefact: ignore\n",
+    "f(a)  # pyrefact: ignore",
     "y = sum(i for i in xs)\n", "y = sum((i for i in xs), 0)\n", "y = list(i * 2 for i in xs) + [0]\ng = (j for j in ys)\n",
 ]
 
@@ -234,7 +237,7 @@ def check(pat, repl, src, count, fn):
         V("count_exceeded", "subn reports %d replacements for count=%d" % (n, count))
     if pat == repl and got != _norm(ast.parse(src)):
         V("identity_changes_tree", "-> %r" % res[:80])
-    src_lines = src.splitlines(keepends=True)
+    src_lines = re.findall(r"[^\n]*\n|[^\n]+$", src)  # physical lines (a form feed in a literal does not end one)
     # lines touched by no occurrence must survive byte for byte, in order
     pos, keep = 0, []
     for line in src_lines:
@@ -242,7 +245,7 @@ def check(pat, repl, src, count, fn):
         pos = e
         if not any(a < e and s < b for a, b in spans) and line.strip():
             keep.append(line.rstrip("\n"))
-    out_lines = [ln.rstrip("\n") for ln in res.splitlines(keepends=True)]
+    out_lines = [ln.rstrip("\n") for ln in re.findall(r"[^\n]*\n|[^\n]+$", res)]
     it = iter(out_lines)
     if not all(any(k == o for o in it) for k in keep):
         V("untouched_line_changed", "lines %r not kept in order in %r" % (keep[:3], res[:80]))
